@@ -7,7 +7,8 @@
        HandlerSets        setProcessExitStatus, mutex released
        HandlerSeesRunning waitpid returned 0        HandlerSeesNoChild  waitpid returned -1
    wait():  if(!isRunning) return;            TestRunning b
-            waitpid(pid,&status,0);           WaitpidReaps | WaitpidFails u   (u: whatever `status` then contains)
+            waitpid(pid,&status,0);           WaitpidReaps | WaitpidFails u (ECHILD) | WaitpidInterrupted u (EINTR)
+                                              (u: whatever `status` then contains; repaired code retries on EINTR)
             setProcessExitStatus(p,status)   WaitSets     (the pinned code, also after a failed waitpid)
             -- repaired code: after a failed waitpid, take processesAccess and read what the handler published --
                                               WaitSyncs
@@ -49,7 +50,7 @@ Inductive event :=
 | ChildExits (st : status)
 | HandlerReaps | HandlerSets | HandlerSeesRunning | HandlerSeesNoChild
 | TestRunning (b : bool)
-| WaitpidReaps | WaitpidFails (u : word)
+| WaitpidReaps | WaitpidFails (u : word) | WaitpidInterrupted (u : word)
 | WaitSets | WaitSyncs
 | Return (v : verdict).
 
@@ -104,6 +105,11 @@ Definition step_fn (k : kind) (s : state) (e : event) : option state :=
       match wp s, ch s with
       | W1, Reaped => Some (with_wp s (match k with Pinned => W2 u | Repaired => W3 end))
       | _, _ => None
+      end
+  | WaitpidInterrupted u =>   (* EINTR: a SIGCHLD handler ran in this thread; the child may still be running *)
+      match wp s with
+      | W1 => Some (with_wp s (match k with Pinned => W2 u | Repaired => W1 end))
+      | _ => None
       end
   | WaitSets =>
       match wp s with
